@@ -46,6 +46,15 @@ Definition tt_name (t : ttype) : string :=
   | AnyLiteral => "AnyLiteral"
   end%string.
 
+
+(* TokenType.String(): the `tokens` array *)
+Definition tt_text (t : ttype) : list N :=
+  match t with
+  | INVALID => [73; 78; 86; 65; 76; 73; 68]%N | EOF => [69; 79; 70]%N | EOL => [69; 79; 76]%N | SPACE => [83; 80; 65; 67; 69]%N | IDENT => [73; 68; 69; 78; 84]%N | STRING => [83; 84; 82; 73; 78; 71]%N | REGEX => [82; 69; 71; 69; 88]%N | INT => [73; 78; 84]%N | DECIMAL => [68; 69; 67; 73; 77; 65; 76]%N | BOOL => [66; 79; 79; 76]%N | COMMENT => [67; 79; 77; 77; 69; 78; 84]%N | BLOCK_COMMENT => [66; 76; 79; 67; 75; 95; 67; 79; 77; 77; 69; 78; 84]%N | DESCRIPTION => [68; 69; 83; 67; 82; 73; 80; 84; 73; 79; 78]%N | ASSIGN => [61]%N | LBRACE => [123]%N | RBRACE => [125]%N | LBRACK => [91]%N | RBRACK => [93]%N | DOT => [46]%N | COMMA => [44]%N | COLON => [58]%N | PLUS => [43]%N | BANG => [33]%N | QUESTION => [63]%N | AnyLiteral => [60; 76; 105; 116; 101; 114; 97; 108; 62]%N
+  end.
+(* operator_beg < t < operator_end *)
+Definition is_operator (t : ttype) : bool := N.ltb 15 (tt_code t) && N.ltb (tt_code t) 27.
+
 (* the `operators` map: rune -> operator token (sorted by rune) *)
 Definition model_operators : list (N * ttype) :=
   [(33, BANG); (43, PLUS); (44, COMMA); (46, DOT); (58, COLON); (61, ASSIGN); (63, QUESTION);
@@ -71,8 +80,8 @@ Definition pos0 : pos := (0, 0)%Z.
 
 Record token := mkTok { ty : ttype; lit : list N; tstart : pos; tend : pos }.
 
-(* a diagnostic: only its range is modelled (messages are not observables) *)
-Record diag := mkDiag { dstart : pos; dend : pos }.
+(* a diagnostic: its range and its message (errpos.Err.Err.Error(), as bytes) *)
+Record diag := mkDiag { dstart : pos; dend : pos; dmsg : list N }.
 
 (* ---- unicode predicates (rune = N; EOF is None and satisfies none of them) -- *)
 Definition is_space (c : N) : bool := in_ranges UnicodeGen.space_ranges c.
@@ -98,7 +107,14 @@ Definition next (s : lstate) : lstate :=
 Definition get_pos (s : lstate) : pos := (line s, col s).
 Definition peek (s : lstate) : option N := hd_error (rest s).
 Definition ch_list (s : lstate) : list N := match ch s with Some c => [c] | None => [] end.
-Definition errf (s : lstate) : diag := mkDiag (get_pos s) (get_pos s).
+Definition errf (msg : list N) (s : lstate) : diag := mkDiag (get_pos s) (get_pos s) msg.
+(* the lexer's messages *)
+Definition msg_eof : list N := [117; 110; 101; 120; 112; 101; 99; 116; 101; 100; 32; 69; 79; 70]%N.
+Definition msg_eol_regex : list N := [117; 110; 101; 120; 112; 101; 99; 116; 101; 100; 32; 69; 79; 76; 32; 105; 110; 32; 114; 101; 103; 101; 120; 44; 32; 100; 105; 100; 32; 121; 111; 117; 32; 109; 101; 97; 110; 32; 116; 111; 32; 101; 115; 99; 97; 112; 101; 32; 105; 116; 63; 32; 40; 39; 92; 110; 39; 41]%N.
+Definition msg_eol_string : list N := [117; 110; 101; 120; 112; 101; 99; 116; 101; 100; 32; 69; 79; 76; 32; 105; 110; 32; 115; 116; 114; 105; 110; 103; 44; 32; 100; 105; 100; 32; 121; 111; 117; 32; 109; 101; 97; 110; 32; 116; 111; 32; 101; 115; 99; 97; 112; 101; 32; 105; 116; 63; 32; 40; 39; 92; 110; 39; 41]%N.
+Definition msg_escape : list N := [105; 110; 118; 97; 108; 105; 100; 32; 101; 115; 99; 97; 112; 101; 44; 32; 100; 105; 100; 32; 121; 111; 117; 32; 109; 101; 97; 110; 32; 39; 92; 92; 39; 63]%N.
+Definition msg_second_dot : list N := [117; 110; 101; 120; 112; 101; 99; 116; 101; 100; 32; 115; 101; 99; 111; 110; 100; 32; 100; 111; 116; 32; 105; 110; 32; 110; 117; 109; 98; 101; 114; 32; 108; 105; 116; 101; 114; 97; 108]%N.
+Definition msg_char (c : N) : list N := [117; 110; 101; 120; 112; 101; 99; 116; 101; 100; 32; 99; 104; 97; 114; 97; 99; 116; 101; 114; 58; 32]%N ++ utf8_encode [c].
 
 (* skipWhitespace: advance while the next rune is a space other than '\n' *)
 Fixpoint skip_whitespace (fuel : nat) (s : lstate) : option lstate :=
@@ -159,9 +175,9 @@ Fixpoint regex_loop (fuel : nat) (s : lstate) (acc : list N) : lres (list N) :=
   | S f =>
     let s1 := next s in
     match ch s1 with
-    | None => RErr (errf s1) s1                                     (* unexpected EOF *)
+    | None => RErr (errf msg_eof s1) s1
     | Some c =>
-      if N.eqb c 10 then RErr (errf s1) s1                          (* unexpected EOL in regex *)
+      if N.eqb c 10 then RErr (errf msg_eol_regex s1) s1
       else if N.eqb c 47 then
         if opt_eq (peek s1) 47 then regex_loop f (next s1) (acc ++ [47%N])
         else ROk acc s1
@@ -183,13 +199,13 @@ Fixpoint string_loop (fuel : nat) (quote : N) (s : lstate) (acc : list N) : lres
   | S f =>
     let s1 := next s in
     match ch s1 with
-    | None => RErr (errf s1) s1                                     (* unexpected EOF *)
+    | None => RErr (errf msg_eof s1) s1
     | Some c =>
       if N.eqb c quote then ROk acc s1
-      else if N.eqb c 10 then RErr (errf s1) s1                     (* unexpected EOL in string *)
+      else if N.eqb c 10 then RErr (errf msg_eol_string s1) s1
       else if N.eqb c 92 then
         match lex_escape quote s1 with
-        | None => RErr (errf s1) s1                                 (* invalid escape *)
+        | None => RErr (errf msg_escape s1) s1
         | Some s2 => string_loop f quote s2 (acc ++ ch_list s2)
         end
       else string_loop f quote s1 (acc ++ [c])
@@ -223,7 +239,7 @@ Fixpoint number_loop (fuel : nat) (s : lstate) (seen_dot : bool) (acc : list N) 
     | Some v =>
       if is_digit v then let s' := next s in number_loop f s' seen_dot (acc ++ ch_list s')
       else if N.eqb v 46 then
-        if seen_dot then RErr (errf s) s
+        if seen_dot then RErr (errf msg_second_dot s) s
         else number_loop f (next s) true (acc ++ [46%N])
       else ROk (if seen_dot then DECIMAL else INT, acc) s
     | None => ROk (if seen_dot then DECIMAL else INT, acc) s
@@ -281,7 +297,7 @@ Fixpoint next_token_fuel (fuel : nat) (s0 : lstate) : lexres * lstate :=
           | RErr d s' => (LErr d, s')
           | RFuel => (LFuel, s)
           end
-        else (LErr (errf s), s)                                    (* unexpected character *)
+        else (LErr (errf (msg_char c) s), s)
       end
     end
   end.
